@@ -525,3 +525,33 @@ Proof.
     split; [now apply IHe1|split; [now apply IHe2|split; [now apply IHe3|exact Ho]]].
   - now apply IHe.
 Qed.
+
+(* ---- `safeb` in ONE pass (value and verdict together); what is executed on concrete inputs ---- *)
+Fixpoint safe1 (env : list F) (e : expr) : F * bool :=
+  match e with
+  | Var n => (nth n env fnan, is_finite (nth n env fnan))
+  | Lit b => (of_bits b, is_finite (of_bits b))
+  | Add a b => let (va, oa) := safe1 env a in let (vb, ob) := safe1 env b in
+               (fadd va vb, oa && ob && ok2Q (F2Q va + F2Q vb))
+  | Sub a b => let (va, oa) := safe1 env a in let (vb, ob) := safe1 env b in
+               (fsub va vb, oa && ob && ok2Q (F2Q va - F2Q vb))
+  | Mul a b => let (va, oa) := safe1 env a in let (vb, ob) := safe1 env b in
+               (fmul va vb, oa && ob && ok2Q (F2Q va * F2Q vb))
+  | Fma a b c => let (va, oa) := safe1 env a in let (vb, ob) := safe1 env b in let (vc, oc) := safe1 env c in
+                 (ffma va vb vc, oa && ob && oc && ok2Q (F2Q va * F2Q vb + F2Q vc))
+  | Neg a => let (va, oa) := safe1 env a in (fneg va, oa)
+  | Div a (Lit b) => let (va, oa) := safe1 env a in
+                     (fdiv va (of_bits b), oa && is_finite (of_bits b) && negb (Qeq_bool (litQ b) 0) && ok2Q (F2Q va / litQ b))
+  | _ => (fev env e, false)
+  end.
+
+Lemma safe1_spec env e : safe1 env e = (fev env e, safeb env e).
+Proof.
+  induction e; cbn [safe1 safeb]; try reflexivity;
+    try (rewrite IHe1, IHe2; reflexivity); try (rewrite IHe1, IHe2, IHe3; reflexivity); try (rewrite IHe; reflexivity).
+  (* Div *)
+  destruct e2; try reflexivity. rewrite IHe1. reflexivity.
+Qed.
+
+Corollary safe1_sound env e : snd (safe1 env e) = true -> safe env e.
+Proof. rewrite safe1_spec. cbn [snd]. apply safeb_sound. Qed.
